@@ -44,6 +44,14 @@ var pinned = []string{
 	`{"driver":"run","frames":[{"js":true,"h":"fin","via":"promise"},{"js":true,"h":"rethrow+fin"},{"js":false,"e":"reflerr","leaf":{"kind":"interrupt"}}]}`,
 	`{"driver":"run","frames":[{"js":true,"h":"finret"},{"js":false,"e":"ctor","x":"construct","b":"swallowall"},{"js":true,"h":"rethrow+fin","leaf":{"kind":"overflow"}}]}`,
 	`{"driver":"run","frames":[{"js":true,"h":"rethrow+fin","via":"forofbody"},{"js":true,"h":"fin"},{"js":false,"e":"dynget","leaf":{"kind":"foreign","expr":"int"}}]}`,
+	// seeded mutation C14-wrapped-uncatchable (wrapReflectFunc looked only at the outermost returned error): an uncatchable error
+	// returned wrapped by a native with an error result must stay uncatchable
+	`{"driver":"run","frames":[{"js":true,"h":"rethrow+fin"},{"js":false,"e":"reflerr","x":"callable","b":"wraperr"},{"js":true,"leaf":{"kind":"overflow"}}]}`,
+	`{"driver":"callable","frames":[{"js":true,"h":"swallow"},{"js":false,"e":"method","x":"expfnerr","b":"wraperr"},{"js":true,"h":"fin"},{"js":false,"e":"reflerr1","leaf":{"kind":"overflow"},"b":"customwrap"}]}`,
+	`{"driver":"run","frames":[{"js":true,"h":"swallow+fin"},{"js":false,"e":"reflerr1","x":"run","b":"customwrap"},{"js":true,"h":"fin","leaf":{"kind":"interrupt"}}]}`,
+	// KF C14-joined-uncatchable (inbox/C14-joined-uncatchable.md): errors.Join around an uncatchable error is not recognised
+	`{"driver":"run","frames":[{"js":true,"h":"fin"},{"js":false,"e":"reflerr","x":"callable","b":"joinerr"},{"js":true,"leaf":{"kind":"overflow"}}]}`,
+	`{"driver":"rtnew","frames":[{"js":true},{"js":false,"e":"reflerr","x":"callable","b":"joinerr"},{"js":true},{"js":false,"e":"fc","leaf":{"kind":"interrupt"}}]}`,
 	// regression: wrapped and joined Go errors through a wrapping intermediary; typed-nil error
 	`{"driver":"callable","frames":[{"js":true,"h":"swallow+fin"},{"js":false,"e":"method","x":"callable","b":"wraperr"},{"js":true,"h":"rethrow"},{"js":false,"e":"reflerr","leaf":{"kind":"reterr","expr":"join"}}]}`,
 	`{"driver":"callable","frames":[{"js":true,"h":"rethrow"},{"js":false,"e":"reflerr1","leaf":{"kind":"reterr","expr":"typednil"}}]}`,
@@ -67,13 +75,13 @@ func Check() *core.Check {
 		Rule: "case = one call chain: host driver convention x up to 8 frames alternating script frames (handler none/rethrow/swallow/replace/finally-only/+finally/finally-return/finally-throw; " +
 			"script->script links call/new/apply/bind/map/getter/Proxy trap/for-of next/for-of body/generator/eval/promise job) and native frames " +
 			"(entry FunctionCall, FunctionCall+Runtime, reflect func with/without error, method, ConstructorCall(+Runtime), ProxyTrapConfig.Get, DynamicObject.Get, native getter; " +
-			"exit Callable, Constructor, ExportTo func with/without error, Object.Get, ForOf next/step, Try around those, nested RunString, Runtime.New; behaviour rethrow/rethrow value/return/wrap/swallow/replace), " +
+			"exit Callable, Constructor, ExportTo func with/without error, Object.Get, ForOf next/step, Try around those, nested RunString, Runtime.New; behaviour rethrow/rethrow value/return/wrap with %w/errors.Join/custom Unwrap type/NewGoError/swallow/replace by value or error — applied to exceptions and, for natives with an error result, to interrupts and stack overflows coming back from the nested script call), " +
 			"innermost frame throws a primitive/object/Error/subclass, returns errors.New/%w/Join/custom/typed-nil/*Exception, panics with Value/TypeError/GoError/*Exception, interrupts, overflows the call stack or panics with a foreign Go value; " +
 			"non-trivial = >= 2 Go<->script crossings and (non-primitive payload or a try handler on the path); distinct = distinct canonical chain descriptions",
 		Assumptions: []string{
 			"expected observations come from harness/c14ref, a model of the documented contract (doc comments of ToValue/ExportTo/AssertFunction/AssertConstructor/Try/ForOf/New/Interrupt/SetMaxCallStackSize/NewGoError), not of goja's code",
 			"error messages are never compared: identities (object/symbol pointers, canonical primitive renderings, Go error identity via ==, errors.Is/As/Unwrap), constructor names and line numbers only",
-			"at most one promise link per chain and none under drivers that are not a run of the runtime (Try/Get/ForOf/New do not drain jobs); natives never swallow an interrupt (the flag is documented to stay set until the outermost return)",
+			"at most one promise link per chain and none under drivers that are not a run of the runtime (Try/Get/ForOf/New do not drain jobs); natives never swallow or replace an interrupt (the flag is documented to stay set until the outermost return); they do return interrupts and stack overflows as is or wrapped (%w, errors.Join, custom Unwrap type) and may swallow or replace a stack overflow: wrapped uncatchables stay uncatchable and the host finds them with errors.As",
 			"a GoError around a typed-nil error: Unwrap may be nil or the typed nil; such chains never pass the error-returning func gateway",
 			"stack law: first script frame of Exception.Stack() is the line where the value was last thrown (non-Error values) resp. where the Error object was created (subclasses use implicit constructors); natives count as their call site",
 			"fuel exhaustion (400k VM instructions per chain) is inconclusive",
@@ -97,9 +105,34 @@ func pickWS(r *core.Rng, xs []string, w []int) string { return xs[r.PickW(w)] }
 
 var handlerW = []int{34, 10, 8, 8, 8, 7, 6, 6, 6, 7}
 
-// excluded is the syntactic neighbourhood of listed known findings, kept out of random generation. Nothing is listed at
-// present (known-findings.d/C14.json has no open finding), so nothing is excluded.
-func excluded(c *c14ref.Chain) bool { return false }
+// kfJoinWitness is the pinned witness of the listed finding C14-joined-uncatchable. While it still fails, the minimal
+// syntactic neighbourhood of the finding is kept out of random generation (see excluded); once the fix is merged the
+// witness holds and the exclusion lifts by itself.
+const kfJoinWitness = `{"driver":"run","frames":[{"js":true,"h":"fin"},{"js":false,"e":"reflerr","x":"callable","b":"joinerr"},{"js":true,"leaf":{"kind":"overflow"}}]}`
+
+var (
+	kfOnce sync.Once
+	kfJoin bool
+)
+
+// excluded is the syntactic neighbourhood of listed known findings, kept out of random generation:
+// C14-joined-uncatchable — chains that end in a stack overflow or an interrupt and contain a native with behaviour
+// joinerr (errors.Join around what the nested script call returned).
+func excluded(c *c14ref.Chain) bool {
+	kfOnce.Do(func() { kfJoin = runChain(parseChain(kfJoinWitness), false).monitor != "" })
+	if !kfJoin {
+		return false
+	}
+	if lk := c.Frames[len(c.Frames)-1].Leaf.Kind; lk != "overflow" && lk != "interrupt" {
+		return false
+	}
+	for i := range c.Frames {
+		if c.Frames[i].B == "joinerr" {
+			return true
+		}
+	}
+	return false
+}
 
 func genOnce(r *core.Rng) *c14ref.Chain {
 	n := 1 + r.PickW([]int{3, 9, 16, 18, 16, 14, 13, 11})
@@ -158,7 +191,7 @@ func genOnce(r *core.Rng) *c14ref.Chain {
 				f.Leaf = &c14ref.Leaf{Kind: "overflow"}
 				bs := []string{"rethrow", "rethrow", "swallowall"}
 				if c14ref.CanReturnErr(f.E) {
-					bs = append(bs, "reterr", "reterr")
+					bs = append(bs, "reterr", "reterr", "wraperr", "joinerr", "customwrap")
 				}
 				f.B = pickS(r, bs)
 			default:
@@ -170,11 +203,33 @@ func genOnce(r *core.Rng) *c14ref.Chain {
 		if c14ref.ExitReturnsErr(f.X) {
 			bs := []string{"rethrow", "rethrow", "rethrowval", "swallow", "swallowall", "replaceval", "newgoerr"}
 			if c14ref.CanReturnErr(f.E) {
-				bs = append(bs, "reterr", "reterr", "reterr", "wraperr", "wraperr", "replaceerr")
+				bs = append(bs, "reterr", "reterr", "reterr", "wraperr", "wraperr", "joinerr", "customwrap", "replaceerr")
 			}
 			f.B = pickS(r, bs)
 			if f.B == "replaceval" {
 				f.Rep = pickS(r, c14ref.GoKinds)
+			}
+		}
+	}
+	// Half of the chains that end in a stack overflow or an interrupt get a native with an error result that receives the
+	// uncatchable error from its nested script call and returns it as is / wrapped (%w, errors.Join, custom Unwrap type),
+	// below a script frame with a handler: "uncatchable" must hold for the whole Unwrap chain.
+	if lk := c.Frames[n-1].Leaf.Kind; (lk == "overflow" || lk == "interrupt") && r.Bool() {
+		var gos []int
+		for i := 1; i < n-1; i++ {
+			if !c.Frames[i].JS {
+				gos = append(gos, i)
+			}
+		}
+		if len(gos) > 0 {
+			g := gos[r.Intn(len(gos))]
+			f := &c.Frames[g]
+			f.E = pickS(r, canErr)
+			f.X = pickS(r, []string{"callable", "callable", "construct", "expfnerr", "run"})
+			f.B = pickS(r, []string{"wraperr", "wraperr", "joinerr", "customwrap", "reterr"})
+			f.Rep = ""
+			if above := &c.Frames[r.Intn(g)]; above.JS && above.H == "" {
+				above.H = pickS(r, []string{"rethrow", "swallow", "fin", "rethrow+fin", "swallow+fin", "finret"})
 			}
 		}
 	}
